@@ -77,6 +77,7 @@ class Harness:
         return f
 
 
+REG = re.compile(r"^\s*//\s*@reg\s+(.*)$")
 ANN = re.compile(r"^\s*//\s*@h\s+(.*)$")
 FN = re.compile(r"^\s*(?:pub\s+)?fn\s+([A-Za-z0-9_]+)\s*\(")
 MACRO = re.compile(r"^\s*[a-z_0-9]+!\(\s*([A-Za-z0-9_]+)\s*,")
@@ -98,6 +99,12 @@ def scan_file(path, modpath, where):
     lines = open(path).read().split("\n")
     i = 0
     while i < len(lines):
+        rg = REG.match(lines[i])
+        if rg:
+            meta = parse_meta(rg.group(1))
+            out.append(Harness(modpath + "::" + meta["name"], where, meta, None, path, i + 1))
+            i += 1
+            continue
         m = ANN.match(lines[i])
         if m:
             meta = parse_meta(m.group(1))
